@@ -16,6 +16,7 @@
 """LLM Rails entry point."""
 
 import asyncio
+import copy
 import importlib.util
 import json
 import logging
@@ -500,7 +501,10 @@ class LLMRails:
             while p > 0:
                 cache_key = self._get_events_cache_key(messages[0:p])
                 if cache_key in self.events_history_cache:
-                    events = self.events_history_cache[cache_key].copy()
+                    # The cached events are shared by all the conversations that begin with the
+                    # same messages: every conversation works on its own copy, so that values
+                    # changed in place (e.g. a list in the context) cannot leak between them.
+                    events = copy.deepcopy(self.events_history_cache[cache_key])
                     break
 
                 p -= 1
